@@ -864,7 +864,21 @@ def py_dead_stores(ctx, py, mods, only=None, rule="PY-DEAD-STORE"):
                         loads.add(x.id)
             if any(isinstance(c, ast.Call) and call_name(c) in ("locals", "vars") for c in ast.walk(fn)):
                 continue
-            dead = sorted(v for v in stores if v not in loads and not v.startswith("_"))
+            # `for i in range(n): <body without i>` is repetition, whatever the counter is called
+            counters, other = set(), set()
+            for x in ast.walk(fn):
+                if isinstance(x, (ast.For, ast.comprehension)):
+                    tg = {t.id for t in ast.walk(x.target) if isinstance(t, ast.Name)}
+                    if isinstance(x.iter, ast.Call) and call_name(x.iter) == "range":
+                        counters |= tg
+                    else:
+                        other |= tg
+            n_stores = {}
+            for x in ast.walk(fn):
+                if isinstance(x, ast.Name) and isinstance(x.ctx, ast.Store):
+                    n_stores[x.id] = n_stores.get(x.id, 0) + 1
+            dead = sorted(v for v in stores if v not in loads and not v.startswith("_")
+                          and not (v in counters and v not in other and n_stores[v] == 1))
             n += 1
             ctx.ob(rule, "%s.%s" % (mn, qn), not dead, m.loc(stores[dead[0]]) if dead else m.loc(fn),
                    "every assigned name is read" if not dead else "name(s) %s assigned but never read" % dead)
